@@ -592,9 +592,6 @@ class EntityPipe(Pipe):
     tapped = False
     own_worker = False
 
-    def counters(self):
-        raise NotImplementedError
-
 
 class PipePooled(EntityPipe):
     label = "PooledCycleResource"
